@@ -460,3 +460,60 @@ func VerifC18ValidatePointer() {
 	}
 	nd.Assert((err != nil) == (verdict != nil), "C18: start-up fails exactly when the bound (pointer) value violates the stated constraints")
 }
+
+type vTwoValid struct {
+	A string `value:"x"`
+	B string `value:"x"`
+	C string `value:"x"`
+}
+
+// C18 (c3): a component with several validated fields fails start-up exactly when ANY of them
+// violates its constraint, wherever the violating field stands.
+func VerifC18SeveralValidated() {
+	reg := support.DefaultDefinitionRegistry()
+	va := NewValueAwarePostProcessors().(*valueAwarePostProcessors)
+	h := &vTwoValid{}
+	nd.Assert(va.PostProcessDefinitionRegistry(reg, h, "h") == nil, "scan ok")
+	meta := reg.GetMetaByName("h")
+	vals := []string{"", "ab"}
+	h.A, h.B, h.C = vals[nd.Choose(2)], vals[nd.Choose(2)], vals[nd.Choose(2)]
+	var props []*component_definition.Property
+	for _, f := range meta.Fields {
+		props = append(props, component_definition.NewProperty(f, component_definition.PropertyTypeConfiguration, "value", "x,validate=required"))
+	}
+	nd.Assert(len(props) == 3, "three validated fields")
+	vd := NewValidateAwarePostProcessors()
+	_, err := vd.PostProcessProperties(props, h, "h")
+	violated := h.A == "" || h.B == "" || h.C == ""
+	if violated {
+		nd.Cover("one of several validated fields violates its constraint")
+	}
+	nd.Assert((err != nil) == violated, "C18: start-up fails exactly when some bound value violates its constraints, whichever field it is")
+}
+
+// C18 (b3): the same expression tag under two configurations (two containers in one process):
+// each start evaluates the expression on ITS substituted text.
+func VerifC18TwoConfigurations() {
+	run := func(a int) string {
+		cfg := &vCfg{keys: []string{"a"}, vals: []any{a}}
+		reg := support.DefaultDefinitionRegistry()
+		va := NewValueAwarePostProcessors().(*valueAwarePostProcessors)
+		h := &vExprHolder{}
+		nd.Assert(va.PostProcessDefinitionRegistry(reg, h, "h") == nil, "scan ok")
+		prop := component_definition.NewProperty(reg.GetMetaByName("h").Fields[0], component_definition.PropertyTypeConfiguration, "value", "#{${a}/2+1}")
+		props := []*component_definition.Property{prop}
+		for _, p := range []container.InstantiationAwareComponentPostProcessor{vQuoteProc(cfg), NewExpressionTagAwarePostProcessors(), va} {
+			_, err := p.PostProcessProperties(props, h, "h")
+			nd.Assert(err == nil, "C18: resolving, evaluating and binding a well-formed expression succeeds")
+		}
+		return h.F
+	}
+	first := []int{2, 8}[nd.Choose(2)]
+	second := 10 - first
+	r1, r2 := run(first), run(second)
+	w1, _ := vEval([]string{"2/2+1", "8/2+1"}[first/8])
+	w2, _ := vEval([]string{"2/2+1", "8/2+1"}[second/8])
+	nd.Assert(r1 == w1, "C18: the field receives the expression's result")
+	nd.Assert(r2 == w2, "C18: an expression is evaluated on the text substituted from the CURRENT configuration, also for a tag text seen before")
+	nd.Cover("same tag under two configurations")
+}
